@@ -32,6 +32,7 @@ var errScripted = errors.New("scripted backend failure")
 
 // entryScript describes one ChainEntry the mock chain can hand out.
 type entryScript struct {
+	parent   *common.Root // ParentRoot() answer; nil = unscripted
 	slot     common.Slot
 	at       *stateAt // real state/epc backing the entry (may be nil if epcOk/stateOk are false)
 	epcOk    bool
@@ -43,7 +44,12 @@ type mockEntry struct{ s entryScript }
 
 func (e *mockEntry) Step() common.Step                     { return common.AsStep(e.s.slot, true) }
 func (e *mockEntry) BlockRoot() (common.Root, error)       { panic("unscripted: BlockRoot") }
-func (e *mockEntry) ParentRoot() (common.Root, error)      { panic("unscripted: ParentRoot") }
+func (e *mockEntry) ParentRoot() (common.Root, error) {
+	if e.s.parent == nil {
+		panic("unscripted: ParentRoot")
+	}
+	return *e.s.parent, nil
+}
 func (e *mockEntry) StateRoot() (common.Root, error)       { panic("unscripted: StateRoot") }
 func (e *mockEntry) EpochsContext(ctx context.Context) (*common.EpochsContext, error) {
 	if !e.s.epcOk || e.s.at == nil {
@@ -62,6 +68,7 @@ func (e *mockEntry) State(ctx context.Context) (common.BeaconState, error) {
 // An unscripted query panics (the executor reports `panic`), so an unexpected extra lookup is visible.
 type backend struct {
 	c        *netCtx
+	spec     *common.Spec // nil: the network's spec
 	minSlot  common.Slot
 	maxSlot  common.Slot
 	seenFlag map[string]bool // by Seen* method name
@@ -100,7 +107,12 @@ func (b *backend) seen(name string, args ...uint64) bool {
 }
 func (b *backend) mark(name string, args ...uint64) { b.marks = append(b.marks, fmtCall(name, args...)) }
 
-func (b *backend) Spec() *common.Spec { return b.c.spec }
+func (b *backend) Spec() *common.Spec {
+	if b.spec != nil {
+		return b.spec
+	}
+	return b.c.spec
+}
 func (b *backend) SlotAfter(delta time.Duration) common.Slot {
 	if delta < 0 {
 		return b.minSlot
